@@ -6,9 +6,10 @@ as if they were written there.  In the model the `include` field step of `toEntr
 end-to-end statement (dump of the split module = dump of the unsplit module) is checked
 metamorphically on both sides by harness/cmd/corr-c13c; it is not proved (see `include_eq_inline`
 below for the statement).  Props/C13Include.lean has the end-to-end theorems: proved for sets without
-augment / deviation statements (`include_eq_inline_noaug`), REFUTED for sets with augments that wait
-for the leftover pass after FixChoice (`include_eq_inline_fails`, finding D67), and for the corrected
-statement `IncludeEqInlineAugments` the order-independence step of the augment loop
+augment / deviation statements (`include_eq_inline_noaug`); for sets with augments that wait for the
+stage after FixChoice the statement was refuted (finding D67) until that stage was made a fixpoint — the
+witness pair now satisfies it (`include_eq_inline_witness`); and for the statement
+`IncludeEqInlineAugments` the order-independence step of the augment loop
 (`include_augment_loop_order`, `include_augment_loop_clean_iff`, `include_pending_rows`, `no_leftover_result`).
 -/
 namespace Goyang.Props.C13c
